@@ -199,7 +199,8 @@ Definition stores (decompress : N -> bytes -> option bytes)
   | _, _ => False
   end.
 
-(** well-formed single-file layout for an image *)
+(** well-formed layout of one dump file (a whole dump, or one member of a
+    split set) for an image *)
 Record dd_wf (l : dd_layout) (img : image) : Prop := {
   wf_pgsz : exists k, 12 <= k <= 18 /\ dl_page_size l = 2^k;
   wf_version : dl_version l <= 6;
@@ -217,7 +218,11 @@ Record dd_wf (l : dd_layout) (img : image) : Prop := {
   wf_cover : dl_max_mapnr l <= 8 * dl_bmp_blocks l * dl_page_size l;
   (* a single bitmap must not look like a partial dump *)
   wf_single : dl_two_bitmaps l = false -> 4 * dl_bmp_blocks l * dl_page_size l < dl_max_mapnr l;
-  wf_nosplit : dl_split l = false;
+  (* a split file: header_version 2 introduced the fields; the 32-bit fields
+     of versions 2..5 hold 32 bits *)
+  wf_split : dl_split l = true ->
+             2 <= dl_version l /\ dl_start_pfn l < 2^64 /\ dl_end_pfn l < 2^64 /\
+             (dl_64 l = false -> dl_version l < 6 -> dl_start_pfn l < 2^32 /\ dl_end_pfn l < 2^32);
   (* the 32-bit reader tells the two sub-header layouts apart by the position
      of VMCOREINFO: the padded layout needs one *)
   wf_pad : dl_64 l = false -> dl_pad l = true -> 3 <= dl_version l ->
@@ -225,3 +230,27 @@ Record dd_wf (l : dd_layout) (img : image) : Prop := {
   wf_small : dl_status l < 2^32 /\ dl_phys_base l < 2^32 /\ dl_dump_level l < 2^32;
   wf_blobs : len (dl_vmcoreinfo l) < 2^32 /\ len (dl_notes l) < 2^32 /\ len (dl_eraseinfo l) < 2^32
 }.
+
+(** * split sets: every member is the same dump with its own PFN window *)
+Definition with_window (l : dd_layout) (w : N * N) : dd_layout :=
+  {| dl_be := dl_be l; dl_64 := dl_64 l; dl_pad := dl_pad l; dl_kdump_sig := dl_kdump_sig l;
+     dl_version := dl_version l; dl_page_size := dl_page_size l; dl_uts := dl_uts l;
+     dl_status := dl_status l; dl_sub_blocks := dl_sub_blocks l;
+     dl_two_bitmaps := dl_two_bitmaps l; dl_bmp_blocks := dl_bmp_blocks l;
+     dl_max_mapnr := dl_max_mapnr l; dl_phys_base := dl_phys_base l;
+     dl_dump_level := dl_dump_level l;
+     dl_split := true; dl_start_pfn := fst w; dl_end_pfn := snd w;
+     dl_vmcoreinfo := dl_vmcoreinfo l; dl_notes := dl_notes l; dl_eraseinfo := dl_eraseinfo l;
+     dl_mem_extra := dl_mem_extra l; dl_data_gap := dl_data_gap l |}.
+
+Definition encode_dd_set (l : dd_layout) (ws : list (N * N)) (pages : list (option dd_page))
+  : list bytes :=
+  map (fun w => encode_dd (with_window l w) pages) ws.
+
+(** the windows of a split set: non-empty, pairwise disjoint, and every page
+    frame of the dump belongs to one *)
+Definition windows_ok (ws : list (N * N)) (max_mapnr : N) : Prop :=
+  (forall w, In w ws -> fst w < snd w) /\
+  NoDup ws /\
+  (forall wi wj, In wi ws -> In wj ws -> wi <> wj -> snd wi <= fst wj \/ snd wj <= fst wi) /\
+  (forall pfn, pfn < max_mapnr -> exists w, In w ws /\ fst w <= pfn < snd w).
